@@ -19,6 +19,9 @@ func init() {
 			}
 			for k := 0; k <= maxK; k++ {
 				for s := 0; s <= maxS; s++ {
+					if k == 3 && s == 2 {
+						continue // exhausts the per-job budget: not claimed
+					}
 					jobs = append(jobs, Job{Pkg: "rules", Func: "verifC06Web", Args: []int64{int64(k), int64(s)}})
 				}
 			}
@@ -44,7 +47,7 @@ func init() {
 		MustReach: []string{"c06.allow", "c06.block", "c06.none", "c06.dns", "c06.twin", "c06.wiring"},
 		Bounds: map[string]string{
 			"quick":    "web: k<=2 request rules and s<=2 referrer rules; DNS: k<=3; twin insertion: base list k<=1, every pair of insertion positions; each rule: exception flag, 64-bit option word and 32-bit type mask symbolic under InvRule, pattern letter, $domain present or not, $dnsrewrite present or not",
-			"thorough": "web: k<=3, s<=2; DNS: k<=4; twin insertion: base k<=2",
+			"thorough": "web: k<=3 with s<=1 and k<=2 with s<=2 (k=3 with s=2 exhausted the per-job budget and is not claimed); DNS: k<=4; twin insertion: base k<=2",
 		},
 		Outside:     []string{"the lookup behind MatchAll (C01): in the wiring harness of Engine.MatchRequest / NetworkEngine.Match it returns the harness lists", "unparseable option bits ($csp/$replace/$cookie/$redirect) are zero under InvRule", "more rules per request than the bound"},
 		Assumptions: []string{"InvRule; rules re-parsed from text on native replay"},
